@@ -536,7 +536,9 @@ class App:
 
         # NOTE(kgriffs): Since this is called by the initializer, there is
         #   the chance that middleware may be None.
-        if middleware:
+        # NOTE: Test for None rather than for truth, so that a bare component
+        #   that happens to be falsy is not silently ignored.
+        if middleware is not None:
             try:
                 middleware = list(middleware)  # type: ignore[call-overload]
             except TypeError:
